@@ -3,6 +3,7 @@
 package absnfs
 
 import (
+	"strings"
 	"fmt"
 	"testing"
 
@@ -109,13 +110,18 @@ func TestVerif_C10(t *testing.T) {
 	}
 	rec.Eval(n)
 	// (3) through HandleCall: effective ids on the context and aux gids as used by ACCESS
-	for _, mode := range []string{"none", "root", "all", "ROOT", ""} {
+	for _, modeCfg := range []string{"none", "root", "all", "ROOT", "", "root+updates", "all+updates"} {
+		// "+updates": the same export after runtime updates whose option literals do not name Squash
+		mode := strings.TrimSuffix(modeCfg, "+updates")
 		fs := refs.New()
 		fs.PlantFile("/g", []byte("x"), 0040, 4000, 0)
 		srv, err := vfNewSrv(fs, ExportOptions{Squash: mode, AttrCacheTimeout: 1})
 		if err != nil {
 			rec.Infra(err.Error())
 			return
+		}
+		if modeCfg != mode {
+			rec.Set("updates_without_squash/"+mode, vfUpdatesWithoutSquash(srv.nfs))
 		}
 		c := srv.client()
 		root, _ := c.mnt("/")
